@@ -167,8 +167,19 @@ def c_compile(ctx, case):
     ctx.count("compiled")
     ctx.count(f"unlisted:{min(len(order) - len(listed), 3)}{'+' if len(order) - len(listed) >= 3 else ''}")
     try:
-        fn = pymbolic.compile(e, [p.Variable(n) if as_vars else n for n in listed])
+        spec = [p.Variable(n) if as_vars else n for n in listed]
+        spec0 = list(spec)
+        fn = pymbolic.compile(e, spec)
         ctxd = fn.context() if hasattr(fn, "context") else {}
+        # the list of variables is the CALLER's: it comes back unchanged, and the caller goes
+        # on using it (here: re-ordered and extended in place for its next compile) -- what was
+        # compiled before, and its later pickles and copies, must not change with it
+        same_spec = len(spec) == len(spec0) and all(a is b for a, b in zip(spec, spec0))
+        spec.reverse()
+        spec.append("later_name")
+        if not same_spec:
+            ctx.fail("C13.compile", case, "compile-modified-variables-argument",
+                     f"compile({e}, {spec0}) changed the list it was given to {spec[:-1][::-1]}")
     except RecursionError:
         raise
     except Exception as ex:  # noqa: BLE001
